@@ -58,3 +58,26 @@ Fixpoint wheel_failing (i : N) (l : list wheel_case) : list N :=
   | x :: r => if wheel_check x then wheel_failing (i + 1) r else i :: wheel_failing (i + 1) r
   end.
 Definition wheel_mismatches (off : N) (cs : list wheel_case) : list N := wheel_failing off cs.
+
+(* ---------- rtimer.After as a whole: the table of wheels and its lock ----------
+   After(T) locks the table, looks the wheel of duration T up or creates it (NewTimeWheel panics when the tick period
+   T/accuracy is 0: time.NewTicker), asks the wheel (panics when T >= maxT) and unlocks the table on EVERY path (the
+   unlock is deferred): a panic that the caller recovers (AdapterProxy.Recv does) must not leave the table locked, or
+   every later After - the one in TarsClient.Send included - blocks for ever. *)
+Inductive after_result := AChan (ch : nat * nat) | APanicTicker | APanicMaxT.
+Definition rt_after_full (T : N) (w : wheel) : after_result * bool (* table still locked afterwards *) :=
+  if (rt_tick T =? 0)%N then (APanicTicker, false)
+  else match rt_after T w with Some ch => (AChan ch, false) | None => (APanicMaxT, false) end.
+Definition rt_panics (T : N) : bool :=
+  match fst (rt_after_full T (new_wheel rt_size)) with AChan _ => false | _ => true end.
+
+(* case = (duration in ns, After panicked, a later After(50 ms) in another goroutine did not return within 2 s) *)
+Definition lock_case := (N * bool * bool)%type.
+Definition lock_check (x : lock_case) : bool :=
+  let '(T, panicked, blocked) := x in
+  Bool.eqb panicked (rt_panics T) && Bool.eqb blocked (snd (rt_after_full T (new_wheel rt_size))).
+Fixpoint lock_failing (i : N) (l : list lock_case) : list N :=
+  match l with
+  | [] => []
+  | x :: r => if lock_check x then lock_failing (i + 1)%N r else i :: lock_failing (i + 1)%N r
+  end.
